@@ -99,15 +99,22 @@ void splinetable<Alloc>::fit(const ::ndsparse& data,
 		                       +") shoulb be less than the number of spline dimensions ("
 		                       +std::to_string(data.ndim)+")");
 	
+	//The arguments are acceptable. Release whatever the table held before, and
+	//make sure that a failure from here on leaves it empty rather than half-built.
+	clear();
+	try{
+	
 	//Initialize variables
 	ndim=data.ndim;
 	order = allocate<uint32_t>(ndim);
 	std::copy(splineOrder.begin(),splineOrder.end(),order);
 	this->knots = allocate<double_ptr>(ndim);
+	std::fill(this->knots,this->knots+ndim,nullptr);
 	nknots = allocate<uint64_t>(ndim);
 	for(uint32_t i=0; i<ndim; i++)
 		nknots[i]=knots[i].size();
 	extents = allocate<double_ptr>(ndim);
+	extents[0] = nullptr;
 	extents[0] = allocate<double>(2*ndim);
 	naxes = allocate<uint64_t>(ndim);
 	for(uint32_t i=0; i<ndim; i++)
@@ -173,6 +180,11 @@ void splinetable<Alloc>::fit(const ::ndsparse& data,
 	cholmod_l_finish(&cholmod_state);
 	if(result!=0)
 		throw std::runtime_error("GLAM fit failed");
+	
+	}catch(...){
+		clear();
+		throw;
+	}
 }
 	
 } //namespace photospline
